@@ -152,6 +152,8 @@ def build(ck, storage, m, unit_trust, src, obs=None, regime="any"):
         *[z3.Implies(z3.And(inres[p], inres[q]), rids[p] != rids[q]) for p in range(P) for q in range(p)])
     G["at_most_the_requested_number"] = z3.And(z3.ULE(rl, count), z3.ULE(rl, bv(m, 64)))
     G["no_peer_below_the_trust_floor_when_untrusted_are_excluded"] = z3.Implies(excl, z3.And(*[z3.Implies(inres[p], z3.Not(z3.fpLT(rtrust[p], thr))) for p in range(P)]))
+    # a trust value that is not a number establishes nothing: such a peer is never chosen (its score is NaN and NaN scores are dropped)
+    G["a_peer_whose_trust_is_not_a_number_is_never_selected"] = z3.And(*[z3.Implies(inres[p], z3.Not(z3.fpIsNaN(rtrust[p]))) for p in range(P)]) if P else z3.BoolVal(True)
     if unit_trust:
         eligible = [z3.Not(z3.And(excl, z3.fpLT(trust_in[i], thr))) for i in range(m)]
         ne = bv(0, 64)
